@@ -342,7 +342,18 @@ pub fn verif_root() -> PathBuf {
 
 pub fn load_findings(property: &str) -> Vec<Finding> {
     let path = verif_root().join("known_findings.txt");
-    let text = std::fs::read_to_string(&path).unwrap_or_default();
+    let mut text = std::fs::read_to_string(&path).unwrap_or_default();
+    // optional per-property fragments (used while a check is being developed; merged into the main file later)
+    if let Ok(rd) = std::fs::read_dir(verif_root().join("known_findings.d")) {
+        let mut files: Vec<_> = rd.filter_map(|e| e.ok()).map(|e| e.path()).collect();
+        files.sort();
+        for f in files {
+            if f.extension().map(|e| e == "txt").unwrap_or(false) {
+                text.push('\n');
+                text.push_str(&std::fs::read_to_string(&f).unwrap_or_default());
+            }
+        }
+    }
     let mut out = vec![];
     for line in text.lines() {
         let line = line.trim();
